@@ -1,6 +1,7 @@
 import SkgVerif.Lemmas.Kriging
 import SkgVerif.Lemmas.Pairs
 import SkgVerif.Lemmas.CondIdx
+import SkgVerif.Gen.Source
 /-!
 # C20 — metric spaces hold true distances; neighbour search = nearest N within range
 -/
@@ -89,5 +90,12 @@ theorem C20_sampled_remap (lidx ridx : List ℕ) (hl : lidx.Nodup) (hr : ridx.No
   exact ⟨(List.Nodup.getElem_inj_iff hl).1 this.1, (List.Nodup.getElem_inj_iff hr).1 this.2⟩
 
 example : findClosestDense [5, 1, 3, 9, 3] 5 3 = [1, 2, 4] := by decide +kernel
+
+/-- `find_closest` as it is in the source now (see `C07_source_find_closest`) -/
+theorem C20_source_find_closest : (Gen.findClosestSource.map (·.1)) = ["candidates", "guard", "sort"] ∧
+    Gen.findClosestSource.lookup "guard" = some "ridx.size > N" ∧
+    Gen.findClosestSource.lookup "sort" = some "sorted_ridx = np.argsort(selected_dists, kind='stable')" ∧
+    Gen.findClosestSource.lookup "candidates" = some "ridx = np.array([k[1] for k in dists.todok().keys()]) | ridx = ridx[sorted_ridx][:N] | ridx = np.where(dists <= max_dist)[0] | ridx = np.arange(len(dists))" :=
+  ⟨by rfl, by rfl, by rfl, by rfl⟩
 
 end Skg
